@@ -216,6 +216,6 @@ def register(reg):
                      "all(implies(_s0[j] != '$END' and _s0[j].isupper() and %s, _s0[j] in accepts) for j in range(0, _i0))" % FEEDOK('_s0[j]'),
                      'all(implies(k in accepts, k.isupper()) for k in STR)',
                  ])},
-                 ghost={'Expr#2': ["t != '$END'" + ' and ' + FEEDOK('t') if False else 'implies(t != \'$END\', %s)' % FEEDOK('t')]},
+                 ghost={'Expr#2': ["implies(t != '$END', %s)" % FEEDOK('t')]},
                  names={'copy': ('builtin', 'copy'), 'UnexpectedToken': ('class', 'UnexpectedToken')},
                  replay=_replay)
